@@ -4,6 +4,52 @@ ALL_REGIONS = ['FE', 'MK', 'ST', 'IH', 'CT', 'SIG', 'AB', 'GC', 'BC', 'CN', 'AC'
                'EV', 'AS', 'DN', 'HD', 'CS', 'DA', 'DF', 'ID', 'EX']
 
 PROPS = {
+    'C02': {
+        'title': 'Typestate API mirrors the transition relation at compile time',
+        'level_text': "Proof over the emitted impl blocks (C02.method_exists_iff, method_types, new_only_initial, accessor_only_own_state): the method of e is found on M<s> iff delta_M(s,e) is defined, it is the method generated for that edge with Ok type M<target> and Err type (Self, GuardError) in the impl of s; new is found only on the initial state's type; the infallible accessors live only in the impl block of their own state. PARTIAL: that rustc's method resolution is this lookup is the trusted Static reading, validated by T4 probes over the full (leaf x event) matrix, every new, every accessor, with Ok/Err type ascriptions (E0599/E0308 keyed by line).",
+        'level_note': 'Ties: T1 (graph), T2 regions FE MK ST IH CT SIG XA, T4 method/types/new/accessor probes.',
+        'modules': ['SMV.Props.C02'],
+        'regions': ['FE', 'MK', 'ST', 'IH', 'CT', 'SIG', 'XA'],
+        't4': ['method'],
+        'design_ref': 'DESIGN.md §7 C02',
+    },
+    'C07': {
+        'title': 'Hierarchy resolution: descendants, initial child and SubstateOf agree',
+        'level_text': "Proof for every nesting depth (C07.expand_super, expand_leaf, expand_undeclared, resolve_super, resolve_leaf, substate_impls, edge_iff, superstate_source; Lemmas/Hier*.lean: the imperative parser walk characterised equationally, then read under the name distinctness a successful parse guarantees): a superstate source stands for exactly the leaves nested anywhere beneath it, a superstate target resolves to its declared initial leaf or else its first-declared leaf, SubstateOf<P> is emitted for leaf l exactly for the superstates enclosing l; edges of the graph are exactly the (expanded source, resolved target) pairs with event-then-transition hook lists.",
+        'level_note': 'Spec side (leavesUnder, initialLeaf, ancestorsOf) is plain structural recursion over the forest (SMV/Spec.lean). Ties: T1 (lookup/ancestors/initial_children/edges dumped from the real parser), T2 regions FE SUB IH SIG, T3 hier family, T4 substate probes (both polarities of the whole leaf x superstate matrix).',
+        'modules': ['SMV.Props.C07'],
+        'regions': ['FE', 'SUB', 'IH', 'SIG'],
+        't3': ['walk'],
+        't4': ['substate'],
+        'design_ref': 'DESIGN.md §7 C07',
+    },
+    'C13': {
+        'title': 'Ill-formed definitions are rejected at compile time, never reinterpreted',
+        'level_text': "Proof in the contrapositive, rule by rule (C13.r1_required_sections, r2_no_unknown_key, transition_block_shape, r3_names_distinct, r4_initial_is_leaf, r56_superstates_ok, r7_to_r10_events, r11_unambiguous): if the macro accepts a definition (parse and validate succeed; otherwise the expansion is compile_error!) and rustc's duplicate-method rule does not fire, the definition has every required section, no unknown key at any level, pairwise distinct state names (leaf and superstate), a declared leaf as initial state, superstates with children and with initial children among their descendants, snake_case events with at least one transition, transitions with from and to and non-empty declared sources and declared targets, and at most one applicable transition per (leaf, event). R1-R10 are refused by the macro, R11 by rustc (E0592; Static rule, trusted, validated by T4 illformed).",
+        'level_note': 'Ties: T1 verdict and message on the mut stream (every rule x every position), T2 FE MK SUB IH, T4 illformed (every mutated definition must fail to compile, macro-phase and rustc-phase crates separately). History: duplicate superstate names were accepted by the unchanged snapshot (F3), fixed by /repo commit 1395bb8.',
+        'modules': ['SMV.Props.C13'],
+        'regions': ['FE', 'MK', 'SUB', 'IH'],
+        't4': ['illformed'],
+        'design_ref': 'DESIGN.md §7 C13',
+    },
+    'C14': {
+        'title': 'Every well-formed definition compiles in every supported configuration',
+        'level_text': "PARTIAL. Proof (C14.dynamic_iff, item_names, toSnake_noUpper, pascalGo_noUnderscore, toPascal_head, accessor_names; C12.method_name_declared): the dynamic API is emitted iff dynamic: true or the feature is set; generated names follow the convention (snake_case methods/accessors/extractors for any state name, PascalCase variants, Dynamic<Name>, <Name>Event). That rustc accepts the expansion of every well-formed definition is not a Lean statement: it is established by rustc on the T4 pos corpus (option product, four build configurations) and on every machine T3 compiles, rebuilt from the current tree on every run.",
+        'level_note': 'Known limits of the real code at the edges of well-formedness are recorded in known_findings.json (derived-name collisions, dynamic with zero events, concrete context without Default under dynamic). Ties: T2 all regions decl/sig, T4 pos, T3 builds.',
+        'modules': ['SMV.Props.C14'],
+        'regions': ['FE', 'MK', 'ST', 'IH', 'CT', 'SIG', 'SA', 'XA', 'SUB', 'EV', 'AS', 'DN', 'DF', 'ID', 'EX', 'DA', 'HD', 'CS'],
+        't4': ['pos'],
+        'design_ref': 'DESIGN.md §7 C14',
+    },
+    'C17': {
+        'title': 'Generated code keeps the zero-cost, no_std footprint',
+        'level_text': "PARTIAL. Proof (C17.all_states_have_markers, struct_fields, no_data_no_slots): every leaf and superstate gets a marker item (unit struct with the template's fixed derive list, token-checked), the machine struct has exactly ctx, the PhantomData and one Option per data-carrying state - none without state data. Zero size, Copy/Eq/Debug/Send/Sync of markers, size_of::<M<Ctx,S>>() == size_of::<Ctx>() and building under #![no_std] without alloc are rustc's facts, established by T4 pos built as a no_std library with const size asserts, MachineState bounds and TransitionError<Marker> uses.",
+        'level_note': 'Ties: T2 all regions (any std/alloc path or changed derive list is a token mismatch), T4 pos nostd/typestate configurations.',
+        'modules': ['SMV.Props.C17'],
+        'regions': ['MK', 'ST', 'IH', 'CT', 'SIG', 'CN', 'SA', 'XA', 'SUB', 'EV', 'AS', 'DN', 'DF', 'ID', 'EX', 'DA', 'HD', 'CS', 'AB', 'GC', 'BC', 'AC', 'AA'],
+        't4': ['nostd'],
+        'design_ref': 'DESIGN.md §7 C17',
+    },
     'C01': {
         'title': 'Dynamic machine follows exactly the declared transition relation',
         'level_text': "Proof (C01.follows_delta, handle_step, new_initial; Lemmas/Handle.handleProg_eq): for every validated machine, every finite sequence of declared events, payloads, hook environment and history, the wrapper created by new is after each returning handle in exactly the state obtained by folding delta_M over the accepted events; an event without transition from the current state is refused with InvalidTransition{from: current, event} without running a hook and leaves the wrapper unchanged; current_state() always names a declared leaf. delta_M is the machine's transition graph; that the graph is the declared relation with superstates expanded/resolved is C07.",
